@@ -29,7 +29,7 @@ def suite(wt):
 
 def untracked(wt):
     rc, out = sh("git status --porcelain --untracked-files=all", cwd=wt)
-    return [l[3:] for l in out.splitlines() if l.startswith("?? ") and not l[3:].startswith("MUTANT/") and l[3:].endswith(".rs")]
+    return [l[3:] for l in out.splitlines() if l.startswith("?? ") and not l[3:].startswith("MUTANT") and l[3:].endswith(".rs")]
 
 
 def pkg_of(path):
